@@ -677,6 +677,22 @@ def correspond(ctx):
                     k = sorted(rdefs)[len(rdefs) // 2] if rdefs else None
                     ctx.sample({'module': name, 'definitions': len(rdefs), 'identical_text': regen == current,
                                 'example_definition': (rdefs.get(k) or '')[:160]})
+            # every checked-in resource module must be produced by SOME definitions entry: a module dropped from
+            # resource-definitions.json (or added by hand) is no longer tied to the Patterns YAML at all
+            listed = {cfg['output'] for cfg in specs['configFiles']}
+            try:
+                present = sorted(f[:-3] for f in os.listdir(outdir) if f.endswith('.py') and f != '__init__.py')
+            except OSError:
+                present = []
+            for name in present:
+                ctx.count('checked-in module')
+                if name not in listed:
+                    ctx.report('property', 'orphan-module:%s' % name,
+                               '%s is a checked-in resource module that no entry of %s/resource-definitions.json generates: '
+                               'its definitions are not tied to Patterns/*.yaml' % (
+                                   os.path.relpath(os.path.join(outdir, name + '.py'), common.REPO), p),
+                               failing_input={'package': p, 'module': name, 'listed_outputs': sorted(listed)},
+                               property_fails=True)
     finally:
         import shutil
         shutil.rmtree(scratch, ignore_errors=True)
